@@ -358,9 +358,10 @@ rotation), `IncludeSameBlockDex`, and all sell-order operations (which touch nei
 
 /-- **holding_eq.** Along every admissible run, for every chain:
 holding pool = Σ amounts of pending DEX orders and deposits in next ∪ locked. -/
-theorem holding_eq (s₀ : State) (ops : List Op) (h₀ : DInv s₀) (hadm : DexAdmissible s₀ ops) (c : Nat) (hc : c ≤ maxChainId) :
+theorem holding_eq (s₀ : State) (ops : List Op) (h₀ : DInv s₀) (hadm : DexAdmissible s₀ ops) (c : Nat)
+    (h0 : 0 < c) (hc : c ≤ maxChainId) :
     (getPool (run s₀ ops) (holdingId c)).amount = pendStored (run s₀ ops) c :=
-  (run_dinv h₀ hadm).hold c hc
+  (run_dinv h₀ hadm).hold c h0 hc
 
 /-- **points_sum.** Along every admissible run, for every pool: Σ points = `TotalPoolPoints`. -/
 theorem points_sum (s₀ : State) (ops : List Op) (h₀ : DInv s₀) (hadm : DexAdmissible s₀ ops) (id : Nat) :
@@ -370,11 +371,11 @@ theorem points_sum (s₀ : State) (ops : List Op) (h₀ : DInv s₀) (hadm : Dex
 /-- … both from an empty genesis state -/
 theorem dex_invariants_from_genesis (self root height minOrder : Nat) (hh : 0 < height) (ops : List Op)
     (hadm : DexAdmissible { self, root, height, minOrder } ops) :
-    (∀ c, c ≤ maxChainId → (getPool (run { self, root, height, minOrder } ops) (holdingId c)).amount
+    (∀ c, 0 < c → c ≤ maxChainId → (getPool (run { self, root, height, minOrder } ops) (holdingId c)).amount
         = pendStored (run { self, root, height, minOrder } ops) c) ∧
     (∀ id, ptsSum (getPool (run { self, root, height, minOrder } ops) id).points
         = (getPool (run { self, root, height, minOrder } ops) id).total) :=
-  ⟨fun c hc => holding_eq _ ops (dinv_init self root height minOrder hh) hadm c hc,
+  ⟨fun c h0 hc => holding_eq _ ops (dinv_init self root height minOrder hh) hadm c h0 hc,
    fun id => points_sum _ ops (dinv_init self root height minOrder hh) hadm id⟩
 
 /-- non-vacuity: a funded pool, two limit orders and a deposit — 350 tokens are pending and held -/
@@ -556,35 +557,56 @@ example :
      | .error _ => false) = true := by decide
 
 /-!
-# Part 7 — a subsidy can be sent to ANY pool id (finding)
+# Part 7 — subsidies and pool ids (finding, repaired upstream in eca9d8a)
 
-`MessageSubsidy.Check` validates the sender address and the opcode length, not `ChainId`; `HandleMessageSubsidy` then does
-`PoolAdd(msg.ChainId, msg.Amount)`. Every other message validates its chain id with `checkChainId` (≤ `MaxChainId`).
-A subsidy whose `ChainId` is `c + EscrowPoolAddend` or `c + HoldingPoolAddend` is accepted and credits chain `c`'s escrow
-or holding pool: the pool then exceeds the open sell orders / the pending DEX orders and deposits — the equalities C20
-states are broken, by a transaction any account can send. `escrow_eq` / `holding_eq` therefore carry the side condition
-that a subsidy's pool id is not an escrow / holding pool id of a valid chain (`OpOk`, `DexOk`); the witnesses below show
-the condition is necessary, and the harness family `subsidy-*` reproduces them on the real state machine, also through
-the real `ApplyTransaction` with a signed transaction.
+Before commit eca9d8a `MessageSubsidy.Check` validated the sender address and the opcode length, not `ChainId`, and
+`HandleMessageSubsidy` does `PoolAdd(msg.ChainId, msg.Amount)`: a subsidy with `ChainId = c + EscrowPoolAddend` or
+`c + HoldingPoolAddend` credited chain `c`'s escrow or holding pool and broke the equalities C20 states
+(`subsidyUnchecked`, witnesses below; reproduced on the real code incl. a signed transaction through `ApplyTransaction`).
+The check now applies `checkChainId`. In the model `Op.subsidy` does the same, and `escrow_eq` / `holding_eq` need NO side
+condition for it: an accepted subsidy has `1 ≤ id ≤ MaxChainId`, every escrow pool id is `≥ EscrowPoolAddend = 65535` and
+every holding pool id of a chain `≥ 1` is `≥ 16384` (`accepted_subsidy_hits_no_escrow_or_holding_pool`). Chain id 0 is
+reserved — `holdingId 0` IS the reward pool of chain `MaxChainId` — which is why `holding_eq` speaks about chains `1 … MaxChainId`.
 -/
 
-/-- the stateless check does not look at `ChainId` … -/
+/-- the stateless check as it is now: address, then chain id, then opcode length -/
 theorem subsidy_check_source : src_MessageSubsidy_Check =
-    "if x == nil { return ErrInvalidSubisdy() }; if err := checkAddress(x.Address); err != nil { return err }; if len(x.Opcode) > 100 { return ErrInvalidOpcode() }; return nil" := rfl
+    "if x == nil { return ErrInvalidSubisdy() }; if err := checkAddress(x.Address); err != nil { return err }; if err := checkChainId(x.ChainId); err != nil { return err }; if len(x.Opcode) > 100 { return ErrInvalidOpcode() }; return nil" := rfl
 
-/-- … and the handler credits `pools[ChainId]` -/
+/-- the handler credits `pools[ChainId]` -/
 theorem subsidy_handler_source : src_HandleMessageSubsidy =
     "retired, err := s.CommitteeIsRetired(msg.ChainId); if err != nil { return err }; if retired { return ErrNonSubsidizedCommittee() }; if err = s.AccountSub(crypto.NewAddressFromBytes(msg.Address), msg.Amount); err != nil { return err }; return s.PoolAdd(msg.ChainId, msg.Amount)" := rfl
 
-/-- a subsidy to `2 + EscrowPoolAddend`: chain 2's escrow pool holds 340, its open orders are worth 300 -/
-theorem subsidy_breaks_escrow_eq :
-    let s := run {} [.fund addrA 1000, mkCreate id1 300, .subsidy addrA (2 + 65535) 40 []]
-    (getPool s (escrowId 2)).amount = 340 ∧ escrowSum s 2 = 300 := by decide
+/-- an accepted subsidy goes to a chain id, and no chain id is the escrow pool id of a valid chain or the holding pool
+id of a chain `≥ 1` (pool-id arithmetic on the generated addends, `constants_pinned`) -/
+theorem accepted_subsidy_hits_no_escrow_or_holding_pool {s s' : State} {a : Bytes} {id n : Nat} {op : Bytes}
+    (h : subsidy s a id n op = .ok s') :
+    id ≠ 0 ∧ id ≤ maxChainId ∧ (∀ c, c ≤ maxChainId → id ≠ escrowId c) ∧ (∀ c, 0 < c → c ≤ maxChainId → id ≠ holdingId c) := by
+  unfold subsidy at h
+  obtain ⟨_, _, h⟩ := bind_ok h
+  obtain ⟨u, hu, _⟩ := bind_ok h
+  obtain ⟨h0, hid⟩ := checkChainId_ok hu
+  refine ⟨h0, hid, fun c hc => ?_, fun c hc0 hc => ?_⟩
+  · unfold escrowId EscrowPoolAddend U64; unfold maxChainId at hid hc; omega
+  · unfold holdingId HoldingPoolAddend U64; unfold maxChainId at hid hc; omega
 
-/-- a subsidy to `2 + HoldingPoolAddend`: chain 2's holding pool holds 140, 100 is pending -/
+/-- pool ids above `MaxChainId`, `0` and the DAO pool id are refused -/
+example : ([0, 16384, 2 + 16383, 2 + 32767, 2 + 65535, 131071, 18446744073709551615].all fun id =>
+    match subsidy {} addrA id 5 [] with
+    | .error .InvalidChainId => true
+    | _ => false) = true := by decide
+
+/-- PRE-FIX witness: the unchecked subsidy to `2 + EscrowPoolAddend` leaves chain 2's escrow pool at 340 with open orders worth 300 -/
+theorem subsidy_breaks_escrow_eq :
+    (match subsidyUnchecked (run {} [.fund addrA 1000, mkCreate id1 300]) addrA (2 + 65535) 40 [] with
+     | .ok s => decide ((getPool s (escrowId 2)).amount = 340 ∧ escrowSum s 2 = 300)
+     | .error _ => false) = true := by decide
+
+/-- PRE-FIX witness: the unchecked subsidy to `2 + HoldingPoolAddend` leaves chain 2's holding pool at 140 with 100 pending -/
 theorem subsidy_breaks_holding_eq :
-    let s := run {} [.fund addrA 1000, .setPool (liquidityId 2) { amount := 500 },
-      .limit 2 { amount := 100, requested := 1, addr := addrA, id := id1 }, .subsidy addrA (2 + 16383) 40 []]
-    holdAmt s 2 = 140 ∧ pendStored s 2 = 100 := by decide
+    (match subsidyUnchecked (run {} [.fund addrA 1000, .setPool (liquidityId 2) { amount := 500 },
+        .limit 2 { amount := 100, requested := 1, addr := addrA, id := id1 }]) addrA (2 + 16383) 40 [] with
+     | .ok s => decide (holdAmt s 2 = 140 ∧ pendStored s 2 = 100)
+     | .error _ => false) = true := by decide
 
 end Canopy.C20
